@@ -48,7 +48,10 @@ TReadyAdmit == Is("Ready") /\ E.how = "admit" /\ held[Mb(E.p)] = E.p /\ S!AdmitW
 TReadyExc == Is("Ready") /\ E.how = "exc" /\ held[Mb(E.p)] = E.p /\ (S!Resolve(Mb(E.p)) \/ S!ReResolveFailWith(Mb(E.p), E.hasdel)) /\ exc'[E.p]
 (* shutdown released it already (the model releases queue and held command in one step) *)
 TReadyRelease == Is("Ready") /\ E.how = "release" /\ ready[E.p] /\ deleted[Mb(E.p)] /\ UNCHANGED svars
-TShutdown == Is("Shutdown") /\ \E c \in DOMAIN TraceCmds : Mb(c) = E.m /\ S!ShutdownBy(c)
+RunningDelete(m) == \E c \in DOMAIN TraceCmds : Mb(c) = m /\ pc[c] = "run" /\ T.cmds[c].k = "DELETE" /\ ~completed[c]
+TShutdown == /\ Is("Shutdown") /\ E.m \in TraceMbox
+             /\ IF RunningDelete(E.m) THEN \E c \in DOMAIN TraceCmds : Mb(c) = E.m /\ S!ShutdownBy(c)
+                ELSE S!StopMailbox(E.m)
 Matches(p, out) == \/ out = "run" /\ pc'[p] = "run"
                    \/ out = "exc" /\ result'[p] = "BAD"
                    \/ out = "gone" /\ result'[p] = "NO"
